@@ -586,3 +586,23 @@ pub fn expr_from(d: &D, sp: SlotParser) -> Result<Expr, String> {
     };
     Ok(ex(k))
 }
+
+// Renders a generic tree in the syntax `parse_debug` reads (Any -> (0, 0)).
+pub fn fmt_d(d: &D) -> String {
+    match d {
+        D::Any => "(0, 0)".to_string(),
+        D::Int(n) => n.to_string(),
+        D::Str(s) => format!("{s:?}"),
+        D::Tuple(v) => format!("({})", v.iter().map(fmt_d).collect::<Vec<_>>().join(", ")),
+        D::List(v) => format!("[{}]", v.iter().map(fmt_d).collect::<Vec<_>>().join(", ")),
+        D::Node(n, f) => {
+            if f.is_empty() {
+                n.clone()
+            } else if f.iter().all(|(k, _)| k.is_none()) {
+                format!("{n}({})", f.iter().map(|(_, v)| fmt_d(v)).collect::<Vec<_>>().join(", "))
+            } else {
+                format!("{n} {{ {} }}", f.iter().map(|(k, v)| format!("{}: {}", k.clone().unwrap_or_default(), fmt_d(v))).collect::<Vec<_>>().join(", "))
+            }
+        },
+    }
+}
